@@ -345,7 +345,8 @@ def content_of(t):
     fm = None
     if t.final_measurement is not None:
       fm = tuple(sorted((k, round(float(v.value), 9)) for k, v in t.final_measurement.metrics.items()))
-    return (_x_of(t), fm, bool(t.infeasible))
+    md = tuple(sorted((tuple(ns), k, v if isinstance(v, str) else repr(v)) for ns, k, v in t.metadata.all_items()))
+    return (_x_of(t), fm, bool(t.infeasible), md)
   except Exception:  # pylint: disable=broad-except
     return None
 
